@@ -233,9 +233,8 @@ func TestVerifC05AgentSampleBucket(t *testing.T) {
 		}
 		// everything fits => nothing sampled
 		perShard := int64((config.SampleBudget + 2) / 3)
-		if !config.SampleBudgets {
-			fixed = 0
-		}
+		// (the agent subtracts the budgets received from the aggregator from the shard budget whether or not
+		// SampleBudgets is on, so the claim is only made when none were received)
 		if int64(total) <= perShard-fixed && fixed == 0 && nSampled != 0 {
 			fail(desc, "bucket of %d bytes fits the shard budget %d but %d rows were sampled", total, perShard, nSampled)
 		}
